@@ -311,6 +311,21 @@ def _check_write_routine(ctx, W):
             okw = bool(ws.closes) and all(st_ == frozenset([True]) for st_ in ws.closes)
             ctx.ob("C17-R1", where, f"the contents parameter is written to '{fvar}' on every normal path before the file is closed", okw, node=ocall,
                    construct=f"contents written to {fvar}", msg="a path closes (and syncs) the freshly truncated file without having written the value: the set returns and the key reads back empty")
+        # complete writes: a buffered file object writes all bytes or raises; a RAW one (buffering=0, os.write) may write fewer and
+        # says so only in its return value
+        raw_drops = []
+        if _unbuffered(ocall):
+            for c in calls_in(W.node):
+                if isinstance(c.func, ast.Attribute) and c.func.attr == "write" and isinstance(c.func.value, ast.Name) and c.func.value.id == fvar \
+                        and isinstance(getattr(c, "_parent", None), ast.Expr):
+                    raw_drops.append(c)
+        for c in calls_in(W.node):
+            if dotted(c.func) == "os.write" and isinstance(getattr(c, "_parent", None), ast.Expr):
+                raw_drops.append(c)
+        ctx.ob("C17-R1", where, f"every write to '{fvar}' is complete: the file object is buffered (write() stores all bytes or raises), or the count returned by a raw write is consumed",
+               not raw_drops, node=(raw_drops[0] if raw_drops else ocall), construct=f"complete write to {fvar}",
+               msg="the file is opened unbuffered (raw FileIO / os.write): write() may store fewer bytes than given and reports that only through its return value, which is dropped here - "
+                   "a short write (signal, quota, full disk boundary) is then synced and acknowledged as a completed set although the stored value is truncated")
         # the sync must exist at all for this file
         has_sync = any(dotted(c.func) in ("os.fsync", "os.fdatasync") for c in calls_in(W.node))
         ctx.ob("C17-R1", where, "an os.fsync call exists in the write routine", has_sync, node=W.node, construct="os.fsync present")
@@ -601,6 +616,7 @@ MUTATION_SCOPE = ['db/file_cache:FileCache._write_file',
                   'db/helpers:key_to_file_path']
 
 SEEDS = [
+    Seed("unbuffered-write-result-dropped", "fault", "db/file_cache", "        with open(os.path.join(self.root_path, file_name), 'wb') as f:", "        with open(os.path.join(self.root_path, file_name), 'wb', buffering=0) as f:", rule="C17-R1"),
     Seed("write-error-swallowed", "fault", "db/file_cache",
          "        with open(os.path.join(self.root_path, file_name), 'wb') as f:\n            f.write(new_file_contents)\n            if use_fsync:\n                f.flush()\n                os.fsync(f.fileno())",
          "        try:\n            with open(os.path.join(self.root_path, file_name), 'wb') as f:\n                f.write(new_file_contents)\n                if use_fsync:\n                    f.flush()\n                    os.fsync(f.fileno())\n        except OSError:\n            pass",
